@@ -46,7 +46,8 @@ void Value::verify_sig(bool compact) {
     if (type != T_DATA) abort("invalid type (must be data)");
     std::vector<std::vector<uint8_t>> args;
     if (!extract_values(args) || args.size() != 3) abort("invalid input (needs a sighash, a pubkey, and a signature)");
-    if (args[0].size() != 32 && args[0].size() != 64) abort("invalid input (sighash must be 32 or 64 bytes)");
+    // (a uint256 is built from it below: anything but 32 bytes trips the constructor's assertion)
+    if (args[0].size() != 32) abort("invalid input (sighash must be 32 bytes)");
     const uint256 sighash(args[0]);
 
     if (args[1].size() == 32) {
